@@ -228,11 +228,11 @@ def run_sched_campaign(res, tier, seed, t_end, n_hist, length):
             res.samples.append({'version': version, 'seed': hseed, 'events': [corr.ev_json(e) for e in events[:25]]})
         if s.violations:
             v = s.violations[0]
-            res.findings.append({'kind': 'monitor', 'property': 'C11', 'clause': v.clause, 'detail': v.detail, 'version': version, 'seed': hseed,
+            res.add({'kind': 'monitor', 'property': 'C11', 'clause': v.clause, 'detail': v.detail, 'version': version, 'seed': hseed,
                                  'sched': True, 'events': [corr.ev_json(e) for e in events[:v.index + 1]]})
             return
         if div is not None:
-            res.findings.append({'kind': 'divergence', 'verdict': 'violation', 'what': div.what, 'version': version, 'seed': hseed, 'sched': True,
+            res.add({'kind': 'divergence', 'verdict': 'violation', 'what': div.what, 'version': version, 'seed': hseed, 'sched': True,
                                  'events': [corr.ev_json(e) for e in events], 'impl': div.impl_side, 'model': div.model_side,
                                  'at': corr.ev_json(div.event)})
             return
@@ -280,7 +280,7 @@ def real_threads_smoke(res, tier, seed, t_end):
         left = fakeredis.FakeStrictRedis(server=srv).lrange(b'q1', 0, -1) + fakeredis.FakeStrictRedis(server=srv).lrange(b'q2', 0, -1)
         expect = sorted(b'p%d-%d' % (i, j) for i in range(n_prod) for j in range(n_items))
         if any(t.is_alive() for t in ths) or sorted(got + left) != expect:
-            res.findings.append({'kind': 'threads', 'verdict': 'violation', 'property': 'C11', 'clause': 'conservation(real threads)',
+            res.add({'kind': 'threads', 'verdict': 'violation', 'property': 'C11', 'clause': 'conservation(real threads)',
                                  'detail': 'delivered %d + left %d of %d; stuck threads: %s' % (len(got), len(left), len(expect),
                                                                                                    any(t.is_alive() for t in ths))})
             return
